@@ -75,7 +75,7 @@ def main():
     ap.add_argument("--seed", default="1")
     a = ap.parse_args()
 
-    matrix_path = os.path.join(VERIF, "mutation_matrix.json")
+    matrix_path = os.environ.get("NSSVERIF_MATRIX", os.path.join(VERIF, "mutation_matrix.json"))
     matrix = json.load(open(matrix_path)) if os.path.exists(matrix_path) else {}
     rc_all = 0
     for pid in a.props:
